@@ -9,7 +9,7 @@ ENGINE = {'name': 'udp',
  'n_quick': 120,
  'n_thorough': 1500,
  'timeout': 900,
- 'shard': 40,
+ 'shard': 12,
  'serves': ['C09'],
  'rule': 'scenarios: a corpus (handler that never reads then returns while the loop is blocked in its send; 40-datagram burst to a handler that '
          'returns at once; idle expiry followed by a late Close; read-once handlers followed by later datagrams; four interleaved clients with '
